@@ -205,6 +205,15 @@ func (li *layoutInterp) sizeOfValue(v AV, st types.Type) *Lin {
 	return nil
 }
 
+// nestedName: the name under which a nested Packable is recorded - a value that is a whole field (a named
+// byte-slice type such as cemi.Info) is named by its field path, however the call reached it.
+func nestedName(recv AV) string {
+	if sl, ok := recv.(avSlice); ok && strings.HasPrefix(sl.region, "f:") && sl.off != nil && sl.off.String() == "0" {
+		return strings.TrimPrefix(sl.region, "f:")
+	}
+	return describeAV(recv)
+}
+
 func describeAV(v AV) string {
 	switch x := v.(type) {
 	case avInt:
@@ -1458,7 +1467,7 @@ func (li *layoutInterp) execCall(fn *ssa.Function, st *lpath, call *ssa.Call) []
 			dst, ok := li.eval(st, cc.Args[0]).(avSlice)
 			sz := li.sizeOfValue(recv, nil)
 			if ok && dst.region == "buf" && sz != nil {
-				li.addWrite(st, dst.off, sz, "nested", describeAV(recv), pos)
+				li.addWrite(st, dst.off, sz, "nested", nestedName(recv), pos)
 			} else {
 				st.notes = append(st.notes, "nested Pack not understood at "+li.p.InstrPos(call))
 			}
@@ -1629,7 +1638,7 @@ func (li *layoutInterp) execCall(fn *ssa.Function, st *lpath, call *ssa.Call) []
 		dst, ok := li.eval(st, cc.Args[1]).(avSlice)
 		sz := li.sizeOfValue(recv, callee.Signature.Recv().Type())
 		if ok && dst.region == "buf" && sz != nil {
-			li.addWrite(st, dst.off, sz, "nested", describeAV(recv), pos)
+			li.addWrite(st, dst.off, sz, "nested", nestedName(recv), pos)
 		} else if ok && dst.region != "buf" {
 			// packing into a temporary: not tracked
 		} else {
